@@ -408,9 +408,28 @@ class B(object):
             choices += ['call']
         if self.profile == 'c01' and not getattr(self, 'rebound_builtin', False):
             choices += ['rebuiltin']
+        if self.profile == 'c03' and not ctx.get('in_class_direct') and self.room():
+            choices += ['neverbound']
         kind = self.pick(choices)
         m = getattr(self, 's_' + kind)
         return m(ctx, ind, depth)
+
+    def s_neverbound(self, ctx, ind, depth):
+        # a read of a name nothing binds anywhere, as the FIRST statement of a try body whose handlers catch the NameError:
+        # unbound on every path, so the read must be reported, whatever surrounds it
+        self.dec()
+        self.nb_count = getattr(self, 'nb_count', 0) + 1
+        nb = 'nb%d' % self.nb_count
+        self.features.add('never-bound-read-in-try-body')
+        handler = self.pick(['except Exception:', 'except:', 'except BaseException:', 'except NameError:', 'except (KeyError, NameError):',
+                             'except (ValueError, Exception):'])
+        # (no binding form here: the path-mode oracle lets evaluation continue past an unbound read, CPython does not)
+        first = self.pick(['use(%s)' % nb, 'use(use(%s), 1)' % nb, 'use(use(%s))' % nb, 'if %s: pass' % nb])
+        out = [ind + 'try:', ind + '    ' + first]
+        if self.chance(40):
+            out.append(ind + '    ' + 'use(%s)' % self._read(ctx, ()))
+        out += [ind + handler, ind + '    ' + self.pick(['pass', 'use(%s)' % self._read(ctx, ())])]
+        return out
 
     def s_rebuiltin(self, ctx, ind, depth):
         # a builtin that this body rebinds further down: until then a module or class body finds the builtin, a function
